@@ -93,6 +93,15 @@ CLAIMS = {
          "assumed: pandas concat(ignore_index, sort) appends rows; to_<engine>/read_<engine> store and return the whole table (csv changes dtypes: bounded only); "
          "numpy.random.choice returns an element of its argument; gen_cases_fnargs (nested generator expressions) has an assumed summary exercised by the replay only; "
          "induction over the history is a meta-argument"),
+ "C16": ("gen_cluster_script is verified as a slice starting at the assignment of `opts` (the resource-parsing prefix is skipped, its results arbitrary): explicit batch "
+         "ids are used as given; with none given the script grows every batch 1..num_batches when nothing is grown yet (array mode 'all', header range 1-num_batches, task "
+         "i grows batch i) and otherwise exactly Crop.missing_results() (C08's contract: the ascending ids without a result file; header range 1-len(ids), task i grows "
+         "the i-th listed id); single mode embeds the given ids or the expression crop.missing_results() and has no array header; these are string facts about the "
+         "template actually chosen (z3 sequence theory on the real constants) plus the values put into the format fields. Ground obligations: every instance of the nine "
+         "script templates compiles as a Python program. BOUNDED: replay/C16.py executes every generated script with bash and stub scheduler variables, once per array "
+         "index, and the xyzpy-grow command line, and checks that exactly the intended batches were grown, each once (quick tier).",
+         "assumed: what bash / the scheduler / the interpreter do with the text (bounded replay only); task variables count from the header's range start; the skipped "
+         "prefix validated scheduler and mode; the PBS single-task rewrite and xyzpy_grow_cli.main are bounded only"),
  "C19": ("Welford object invariants over ghost sums (count=n, mean*n=S1, M2*n=S2*n-S1^2, M2>=0; xmean*n=Sx, ymean*n=Sy, C*n=Sxy*n-Sx*Sy) are proved preserved by update/update_from_it over the reals, var/std/err/covar/sample_covar are proved equal to the whole-sample formulas of those sums (permutation- and chunking-invariant), and estimate_from_repeats is proved to draw exactly rs.count samples, never more than max(max_samples,1), and to stop only after converged() held with more than min_samples draws or at the limit.",
          "floats are treated as reals: the clause 'to floating-point accuracy relative to the data scale' is NOT decided (a numerically unstable but algebraically equal rewrite would still verify); RunningCovarianceMatrix (dict of RunningCovariance objects) is only covered by the bounded replay; KeyboardInterrupt path excluded; sqrt axiomatised"),
 }
